@@ -29,6 +29,8 @@ def subNames (s : String) : Option (List String) :=
   (s.splitOn "/").mapM fun c => match toComp c with | .nm a => some a | _ => none
 
 def b (t : String) : Bool := t == "1"
+/-- the `--clear` flag: "1" given, "2" given as `--clear=false`, anything else: not given -/
+def cl (t : String) : Option Bool := if t == "1" then some true else if t == "2" then some false else none
 def sb (x : Bool) : String := if x then "1" else "0"
 
 def ints (t : String) : Option (List Int) := (commaList t).mapM (·.toInt?)
@@ -65,13 +67,13 @@ def handle : List String → String
       | some (.link t) => if t == ⟨false, names ["new"]⟩ then "replaced" else "kept"
       | some _ => "other"
   | ["survive", k, c, u, s, p, i, pl, up] =>
-    let o := runEnd ⟨b k, b c, b u, b s⟩ ⟨b p, b i, b pl, b up⟩
+    let o := runEnd ⟨b k, cl c, b u, b s⟩ ⟨b p, b i, b pl, b up⟩
     "exit=" ++ sb o.exitNonZero ++ " foul=" ++ sb o.foulFlag ++ " run=" ++ sb o.runDir ++ " art=" ++ sb o.artifacts
       ++ " plots=" ++ sb o.plots ++ " result=" ++ sb o.result ++ " uploaded=" ++ sb o.uploaded ++ " upart=" ++ sb o.uploadedArtifacts
   -- oracle: the survive specification on what the real program left on disk
   | ["oracle-survive", k, c, u, s, fouled, failed, art, run] =>
-    if surviveSpec ⟨b k, b c, b u, b s⟩ (b fouled) (b failed) (b art) (b run) then "ok"
-    else "FAIL artifacts kept iff (the play failed or -k) and run directory kept; run directory erased iff (--clear or upload) and exit status 0"
+    if surviveSpec ⟨b k, cl c, b u, b s⟩ (b fouled) (b failed) (b art) (b run) then "ok"
+    else "FAIL artifacts kept iff (the play failed or -k) and run directory kept; run directory erased iff (--clear, or an upload URL without an explicit --clear=false) and exit status 0"
   | ["range", ts] =>
     match ints ts with
     | some l => toString (normalise 10000 (record l)).1 ++ " " ++ toString (normalise 10000 (record l)).2
